@@ -151,6 +151,12 @@ type world struct {
 	faultsOn  bool
 	hbTimeout time.Duration
 	corruptAtStart string
+	ghostZones     []string
+	fresh            []*ring.Ring
+	lookupNontrivial bool
+	observedCommits  int
+	lastObservedAt   time.Duration
+	lastObservedVer  int
 	checked   int // commits already examined by the commit oracle
 	forgotten map[string]time.Duration
 }
@@ -187,6 +193,11 @@ func newWorld(s *sim.Sim) *world {
 	w.opKV = w.store.NewClient("operator")
 	w.fs = simos.New()
 	simos.Cur = w.fs
+	s.OnEnd(func() {
+		for _, r := range w.fresh {
+			r.StopAsync()
+		}
+	})
 	return w
 }
 
